@@ -21,9 +21,16 @@ func description(b []byte) ([]byte, error) {
 	b = bytes.TrimRight(b, "\r\n\t ")
 
 	lines := bytes.Split(b, []byte{'\n'})
+	for len(lines) > 1 && isBlankLine(lines[0]) {
+		lines = lines[1:]
+	}
 
 	prefix := longestWhitespacePrefix(lines)
 	for i := 0; i < len(lines); i++ {
+		if isBlankLine(lines[i]) {
+			lines[i] = nil
+			continue
+		}
 		lines[i] = bytes.TrimPrefix(lines[i], prefix)
 	}
 
@@ -56,34 +63,25 @@ func descriptionRemoveParentheses(b []byte) ([]byte, error) {
 }
 
 func longestWhitespacePrefix(bb [][]byte) []byte {
-	empty := make([]byte, 0)
-
-	if len(bb) == 0 {
-		return empty
-	}
-
-	prefix := empty
-	for i := 0; i < len(bb[0]); i++ {
-		if bb[0][i] != '\t' && bb[0][i] != ' ' || i == len(bb[0])-1 {
-			prefix = bb[0][:i]
-			break
+	prefix := make([]byte, 0)
+	first := true
+	for _, l := range bb {
+		if isBlankLine(l) {
+			// A line without text says nothing about the indentation of the text.
+			continue
+		}
+		if first {
+			prefix = l[:len(l)-len(bytes.TrimLeft(l, "\t "))]
+			first = false
+			continue
+		}
+		for !bytes.HasPrefix(l, prefix) {
+			prefix = prefix[:len(prefix)-1]
 		}
 	}
-
-	if len(prefix) == 0 {
-		return empty
-	}
-
-	for i := 1; i < len(bb); i++ {
-		if len(bb[i]) != 0 {
-			for !bytes.HasPrefix(bb[i], prefix) {
-				prefix = prefix[:len(prefix)-1]
-				if len(prefix) == 0 {
-					return empty
-				}
-			}
-		}
-	}
-
 	return prefix
+}
+
+func isBlankLine(l []byte) bool {
+	return len(bytes.TrimLeft(l, "\t ")) == 0
 }
